@@ -272,6 +272,24 @@ class C23(Property):
                     return ctx.violation("spatial-envelope-out-of-unit-interval", c, {"min": float(k.min()), "max": float(k.max())})
                 if k[0, 0] != 1.0:
                     return ctx.violation("spatial-envelope-not-one-at-zero-angle", c, {"value": float(k[0, 0])})
+            elif chk == "spatial-gradient":
+                # the envelope is exp(-(s/2)^2 |grad chi~|^2) with chi~ = 2 pi/lambda chi the function Aberrations applies:
+                # gradient written out independently from the polar expansion (Kirkland Eq. 2.22)
+                orders = [(1, 0, "C10", None), (1, 2, "C12", "phi12"), (2, 1, "C21", "phi21"), (2, 3, "C23", "phi23"), (3, 0, "C30", None),
+                          (3, 2, "C32", "phi32"), (3, 4, "C34", "phi34"), (4, 1, "C41", "phi41"), (4, 3, "C43", "phi43"),
+                          (4, 5, "C45", "phi45"), (5, 0, "C50", None), (5, 2, "C52", "phi52"), (5, 4, "C54", "phi54"), (5, 6, "C56", "phi56")]
+                co = {k: ufx(v) for k, v in c["coeffs"].items()}
+                se = tr.SpatialEnvelope(angular_spread=ufx(c["spread"]), aberration_coefficients=co, energy=energy)
+                alpha = np.array([ufx(v) for v in c["alpha"]]).reshape(3, 4)
+                phi = np.array([ufx(v) for v in c["phi"]]).reshape(3, 4)
+                da = sum(alpha ** n * co.get(C, 0.0) * np.cos(m * (phi - (co.get(a, 0.0) if a else 0.0))) for n, m, C, a in orders)
+                dp = sum(-alpha ** n / (n + 1) * m * co.get(C, 0.0) * np.sin(m * (phi - (co.get(a, 0.0) if a else 0.0))) for n, m, C, a in orders)
+                kk = 2 * np.pi / se.wavelength
+                exp = np.exp(-(ufx(c["spread"]) * 1e-3 / 2) ** 2 * ((kk * da) ** 2 + (kk * dp) ** 2))
+                got = np.asarray(se._evaluate_from_angular_grid(alpha, phi), dtype=np.float64)
+                if np.abs(got - exp).max() > (1e-9 if c["precision"] == "float64" else 1e-3):
+                    return ctx.violation("spatial-envelope-is-not-the-gradient-of-the-aberration-function", c,
+                                         {"max_abs_diff": float(np.abs(got - exp).max())})
             elif chk == "ctf-kernel":
                 kw = dict(semiangle_cutoff=np.inf if c["cutoff"] == "inf" else ufx(c["cutoff"]), soft=c["soft"], energy=energy,
                           focal_spread=ufx(c["focal"]), angular_spread=ufx(c["spread"]), flip_phase=c["flip"],
@@ -302,7 +320,11 @@ class C23(Property):
             c.update(a0=fx(rng.uniform(0.2, 3.0)), a1=fx(rng.uniform(0.2, 3.0)), phi=fx(rng.uniform(-math.pi, math.pi)))
         if chk in ("temporal-kernel", "ctf-kernel"):
             c["focal"] = fx(rng.choice([rng.uniform(0, 150), 0.0, -rng.uniform(0, 50)]))
-        if chk in ("spatial-kernel", "ctf-kernel"):
+        if chk == "spatial-gradient":
+            c["precision"] = "float64"
+            c["alpha"] = [fx(rng.uniform(0, 0.03)) for _ in range(12)]
+            c["phi"] = [fx(rng.uniform(-math.pi, math.pi)) for _ in range(12)]
+        if chk in ("spatial-kernel", "ctf-kernel", "spatial-gradient"):
             c["spread"] = fx(rng.choice([rng.uniform(0, 4), 0.0, rng.uniform(0, 0.5)]))
             c["coeffs"] = {k: fx(v) for k, v in gen_coeffs(rng, rng.choice([0.15, 0.5, 1.0])).items()}
         if chk == "ctf-kernel":
@@ -313,7 +335,7 @@ class C23(Property):
 
     def conformance(self, ctx: Ctx):
         for chk, n in (("explicit-angles", ctx.n(40, 800)), ("cutoff-ensemble", ctx.n(30, 500)), ("aperture-kernel", ctx.n(80, 1500)), ("temporal-kernel", ctx.n(40, 800)),
-                       ("spatial-kernel", ctx.n(50, 1000)), ("ctf-kernel", ctx.n(80, 1500))):
+                       ("spatial-kernel", ctx.n(50, 1000)), ("spatial-gradient", ctx.n(50, 1000)), ("ctf-kernel", ctx.n(80, 1500))):
             for _ in range(n):
                 c = self.gen_conf(ctx, chk)
                 self.oracle(ctx, c)
